@@ -385,15 +385,19 @@ MUTANTS += [
 MUTANTS += [
     # ---- C10
     dict(id="c10-function-decorator-outermost", property="C10", edits=[(I, "        node.decorator_list.append(decorator)\n", "        node.decorator_list.insert(0, decorator)\n")]),
-    dict(id="c10-no-copy-location-function", property="C10", edits=[(I, "        decorator = self._typechecker.get_ast()\n        ast.copy_location(decorator, node)\n        # Place at the end", "        decorator = self._typechecker.get_ast()\n        # Place at the end")]),
+    dict(id="c10-no-copy-location-function", property="C10", edits=[(I, "        decorator = self._typechecker.get_ast()\n        ast.copy_location(decorator, node)\n        ast.fix_missing_locations(decorator)\n        # Place at the end", "        decorator = self._typechecker.get_ast()\n        ast.fix_missing_locations(decorator)\n        # Place at the end")]),
     dict(id="c10-import-at-body0", property="C10", edits=[(I, "        for i, child in enumerate(node.body):\n            if isinstance(child, ast.ImportFrom) and child.module == \"__future__\":\n                continue", "        for i, child in enumerate(node.body):\n            if False:\n                continue")]),
-    dict(id="c10-visit-async", property="C10", edits=[(I, "class _JaxtypingLoader(SourceFileLoader):", "JaxtypingTransformer.visit_AsyncFunctionDef = JaxtypingTransformer.visit_FunctionDef\n\n\nclass _JaxtypingLoader(SourceFileLoader):")]),
+    dict(id="c10-visit-async", property="C10", edits=[(I, "                        if isinstance(item, (ast.FunctionDef, ast.ClassDef)):", "                        if isinstance(item, (ast.FunctionDef, ast.AsyncFunctionDef, ast.ClassDef)):"), (I, "class _JaxtypingLoader(SourceFileLoader):", "JaxtypingTransformer.visit_AsyncFunctionDef = JaxtypingTransformer.visit_FunctionDef\n\n\nclass _JaxtypingLoader(SourceFileLoader):")]),
     dict(id="c10-class-decorator-innermost", property="C10", edits=[(I, "        node.decorator_list.insert(0, decorator)\n", "        node.decorator_list.append(decorator)\n")]),
     dict(id="c10-nested-defs-not-visited", property="C10", edits=[(I, "        node.decorator_list.append(decorator)\n\n        self._parents.append(node)\n        self.generic_visit(node)\n        self._parents.pop()", "        node.decorator_list.append(decorator)")]),
     dict(id="c10-docstring-after-import", property="C10", edits=[(I, "            elif isinstance(child, ast.Expr) and isinstance(child.value, ast.Constant):\n                continue  # module docstring", "            elif False:\n                continue  # module docstring")]),
     dict(id="c10-wrong-hash-in-decorator", property="C10", edits=[(I, "Typechecker.lookup['{self.hash}'])", "Typechecker.lookup['{self.hash[:-1]}'])")]),
-    dict(id="c10-strips-return-annotations", property="C10", edits=[(I, "        decorator = self._typechecker.get_ast()\n        ast.copy_location(decorator, node)\n        # Place at the end", "        decorator = self._typechecker.get_ast()\n        ast.copy_location(decorator, node)\n        if isinstance(node.returns, ast.Constant):\n            node.returns = None\n        # Place at the end")]),
-    dict(id="c10-lambda-defaults-dropped", property="C10", edits=[(I, "class _JaxtypingLoader(SourceFileLoader):", "def _visit_Lambda(self, node):\n    if len(node.args.defaults) > 1:\n        node.args.defaults = node.args.defaults[::-1]\n    self.generic_visit(node)\n    return node\n\n\nJaxtypingTransformer.visit_Lambda = _visit_Lambda\n\n\nclass _JaxtypingLoader(SourceFileLoader):")]),
+    dict(id="c10-strips-return-annotations", property="C10", edits=[(I, "        decorator = self._typechecker.get_ast()\n        ast.copy_location(decorator, node)\n        ast.fix_missing_locations(decorator)\n        # Place at the end", "        decorator = self._typechecker.get_ast()\n        ast.copy_location(decorator, node)\n        ast.fix_missing_locations(decorator)\n        if isinstance(node.returns, ast.Constant):\n            node.returns = None\n        # Place at the end")]),
+    dict(id="c10-def-defaults-reversed", property="C10", edits=[(I, "        node.decorator_list.append(decorator)\n", "        node.decorator_list.append(decorator)\n        if len(node.args.defaults) > 1:\n            node.args.defaults = node.args.defaults[::-1]\n")]),
+    # the walker only visits statements: re-introduce the recursive walk over everything (F14)
+    dict(id="c10-f14-recursive-walk", property="C10", edits=[(I, "    def generic_visit(self, node: ast.AST):\n", "    def generic_visit(self, node: ast.AST):\n        return ast.NodeVisitor.generic_visit(self, node)\n\n    def _unused_generic_visit(self, node: ast.AST):\n")]),
+    dict(id="c10-walker-skips-except-handlers", property="C10", edits=[(I, "                            item, (ast.stmt, ast.excepthandler, ast.match_case)", "                            item, (ast.stmt, ast.match_case)")]),
+    dict(id="c10-import-without-location", property="C10", edits=[(I, "                    new_node.lineno = new_node.end_lineno = 1\n", "                    new_node.lineno = new_node.end_lineno = 2\n")]),
 ]
 
 MUTANTS += [
